@@ -2,6 +2,7 @@ package main
 
 import (
 	"fmt"
+	"os"
 	"strings"
 
 	"golang.org/x/tools/go/ssa"
@@ -95,6 +96,13 @@ func debugDump(c *Ctx, what string) {
 				fmt.Printf("    skel: %s\n", skelString(c.skeleton(p.Ret.Results[0], p.Env)))
 			}
 		}
+	case strings.HasPrefix(what, "ssa:"):
+		fn := c.findFunc(strings.TrimPrefix(what, "ssa:"))
+		if fn == nil {
+			fmt.Println("no such function")
+			return
+		}
+		fn.WriteTo(os.Stdout)
 	case strings.HasPrefix(what, "dom:"):
 		fn := c.findFunc(strings.TrimPrefix(what, "dom:"))
 		if fn == nil {
